@@ -66,6 +66,8 @@ fn mix_tpl(which: usize) -> V9Tpl {
         // same field count and record size as template 0, different fields (a redefinition that only a full
         // comparison of the field list can tell from a refresh)
         3 => V9Tpl { id: 256, fields: vec![fs(7, 2), fs(2, 4)] },
+        // a redefinition that introduces a field type the library does not know
+        4 => V9Tpl { id: 256, fields: vec![fs(1, 4), fs(600, 2)] },
         _ => V9Tpl { id: 256, fields: vec![fs(2, 8), fs(96, 4)] },
     }
 }
@@ -90,7 +92,8 @@ fn mix_set(k: usize, pos: usize) -> (V9Set, usize) {
         5 => (V9Set::Data(257, mix_body(20 + pos, (pos + 1) % 4)), 2),
         6 => (V9Set::Data(258, mix_body(30 + pos, 0)[..8].to_vec()), 1),
         7 => (V9Set::Tpl(vec![mix_tpl(2)], 0), 1),
-        _ => (V9Set::Tpl(vec![mix_tpl(3)], 0), 1),
+        8 => (V9Set::Tpl(vec![mix_tpl(3)], 0), 1),
+        _ => (V9Set::Tpl(vec![mix_tpl(4)], 0), 1),
     }
 }
 
@@ -174,13 +177,13 @@ pub fn streams(tier: &str) -> Vec<StreamGen> {
         };
                 v.push(stream_gen("v9-options-templates", ns * no * 16, mk));
     }
-    // 4. flowset mixes: all sequences of <= 3 (thorough 4) sets over an 8-set menu x prior context x count convention
+    // 4. flowset mixes: all sequences of <= 3 (thorough 4) sets over a 10-set menu x prior context x count convention
     {
         let maxlen = if thorough { 4 } else { 3 };
-        let nl = list_count(9, maxlen);
+        let nl = list_count(10, maxlen);
         let mk = move |i: u64| -> Vec<Vec<u8>> {
             let d = digits(i, &[nl, 2, 2]);
-            let seq = list_at(9, maxlen, d[0]);
+            let seq = list_at(10, maxlen, d[0]);
             let mut sets = vec![];
             let mut nrecords = 0;
             for (pos, k) in seq.iter().enumerate() {
@@ -244,7 +247,7 @@ pub fn run(tier: &str) -> i32 {
         prop: "C04".into(),
         tier: tier.into(),
         level: "model_checking",
-        rule: "every index of each space is a conformant V9 stream (1..3 calls on one fresh parser) built from finite menus: every field type 1..=520(+extras) x every supported width x value menu x delivery x padding; all lists of class representatives of length <= 2 (thorough 3) x records x padding x delivery; all scope/option lists; all flowset sequences of length <= 3 (thorough 4) over an 8-set menu x prior context x count convention. Each call's result is compared with the RFC 3954 reference decode; an outcome is distinct by the hash of the canonical results of all calls".into(),
+        rule: "every index of each space is a conformant V9 stream (1..3 calls on one fresh parser) built from finite menus: every field type 1..=520(+extras) x every supported width x value menu x delivery x padding; all lists of class representatives of length <= 2 (thorough 3) x records x padding x delivery; all scope/option lists; all flowset sequences of length <= 3 (thorough 4) over a 10-set menu x prior context x count convention. Each call's result is compared with the RFC 3954 reference decode; an outcome is distinct by the hash of the canonical results of all calls".into(),
         bounds: json!({"history_depth": 3, "multi_field_list_len": if tier=="thorough" {3} else {2}, "flowset_sequence_len": if tier=="thorough" {4} else {3}, "records_per_flowset": "1..=3", "padding": "0..=3"}),
         assumptions: vec!["field number -> (name, value class) is the library's own table (pinned by its lookup snapshot tests)".into(), "count field read as an upper bound on flowsets (C11's reading); a packet extends to the end of the buffer otherwise".into()],
         trusted_base: vec!["refmodel::ref_v9 (RFC 3954 reference decoder) and refmodel::decode".into()],
